@@ -45,6 +45,18 @@ def calls(fn, name=None, pred=None):
     return out
 
 
+def argv(call, name, pos=None):
+    """The argument of a call given by keyword `name` or, failing that, at position `pos` (the analysed program is
+    in canonical argument style, but whether a parameter has a default - and so which style it gets - is the
+    repository's business)."""
+    for kw in call.keywords:
+        if kw.arg == name:
+            return kw.value
+    if pos is not None and len(call.args) > pos and not any(isinstance(a, ast.Starred) for a in call.args[:pos + 1]):
+        return call.args[pos]
+    return None
+
+
 def kwarg(call, name):
     for kw in call.keywords:
         if kw.arg == name:
